@@ -99,6 +99,14 @@ Definition pick (n : str) (t : ty) (vp va : val) : outcome val :=
 
 Definition all_vnil (l : list val) : bool := forallb is_vnil l.
 
+(* the values of the exported fields (unexported ones are never translated,
+   so they cannot make an embedded pointer "set") *)
+Fixpoint exported_only (fs : fields) (vals : list val) : list val :=
+  match fs, vals with
+  | FCons n _ _ _ r, v :: vr => if exported n then v :: exported_only r vr else exported_only r vr
+  | _, _ => []
+  end.
+
 (* a set is the set of the elements written to its slice *)
 Definition leaf_back (t : ty) (v : val) : outcome val :=
   if sh_setslice sh && is_set_ty t then
@@ -174,7 +182,7 @@ with nspec_fields (fs : fields) (env : named) {struct fs} : outcome (list val) :
               match t with
               | TPtr (TStruct ifs _) =>
                   vals <- nspec_fields_in ifs env ;;
-                  if all_vnil vals then Ok VNil else Ok (VPtr (VStruct vals))
+                  if all_vnil (exported_only ifs vals) then Ok VNil else Ok (VPtr (VStruct vals))
               | TStruct ifs _ => vals <- nspec_fields_in ifs env ;; Ok (VStruct vals)
               | _ => named_field (nspec_ty t) n tg t env
               end
